@@ -389,16 +389,19 @@ class ASTSchemaPrinter:
     def print_schema_definition(self, schema: Schema) -> str:
         directives = self.print_directives(schema)
 
-        if (
-            not directives
-            and (not schema.query_type or schema.query_type.name == "Query")
-            and (
-                not schema.mutation_type
-                or schema.mutation_type.name == "Mutation"
+        # The definition can only be omitted when the root types are exactly
+        # the ones which are inferred from the conventional names.
+        if not directives and all(
+            root_type
+            is (
+                schema.types.get(conventional_name)
+                if isinstance(schema.types.get(conventional_name), ObjectType)
+                else None
             )
-            and (
-                not schema.subscription_type
-                or schema.subscription_type.name == "Subscription"
+            for root_type, conventional_name in (
+                (schema.query_type, "Query"),
+                (schema.mutation_type, "Mutation"),
+                (schema.subscription_type, "Subscription"),
             )
         ):
             return ""
